@@ -93,3 +93,16 @@ Theorem C17_mp11_flags_after_every_history : forall cf, c_be cf = Mp11 -> forall
   co_flag_and (build cf parents false root) rn' f = sp_flag_and_mp11 root c' f.
 Proof. exact mp11_flags_after_history. Qed.
 Print Assumptions C17_mp11_flags_after_every_history.
+
+(* ... and after every history that also stores events and processes them (back): the answers are the flag functions of
+   the configuration the specification with a pending list ends in *)
+From Msm Require Import Lemmas_SpecQueue Lemmas_SpecQueueInv.
+Theorem C17_back_flags_after_every_history_with_stored_events : forall cf, c_be cf = Back ->
+  forall parents, (forall e, nth e parents None = None) -> back_start_queues = true ->
+  forall root, core root -> forall l f, Forall qplain_op l -> count_enq l + depth root + 3 <= default_fuel ->
+  let rn' := final_rn cf root (build cf parents false root) default_fuel (init_rnode root) l in
+  let c' := fst (sp_qfinal (c_pol cf) root (abs (init_rnode root), []) l) in
+  co_flag_or (build cf parents false root) rn' f = sp_flag_or root c' f /\
+  co_flag_and (build cf parents false root) rn' f = sp_flag_and_back root c' f.
+Proof. exact back_flags_after_queue_history. Qed.
+Print Assumptions C17_back_flags_after_every_history_with_stored_events.
